@@ -15,6 +15,7 @@ package main
 // outcome flip whose error class is known.
 
 import (
+	"context"
 	"crypto/sha256"
 	"encoding/hex"
 	"encoding/json"
@@ -30,6 +31,7 @@ import (
 	"strings"
 	"time"
 
+	"github.com/compose-spec/compose-go/v2/loader"
 	"github.com/compose-spec/compose-go/v2/types"
 
 	"verifharness/core"
@@ -1231,11 +1233,83 @@ func init() {
 	})
 }
 
+// c02.sharedEnv — DESIGN §10 #15: loader.projectName stores COMPOSE_PROJECT_NAME into details.Environment, which is the
+// *caller's* map.  Two loads that are handed the same map object are therefore not independent: the second sees the
+// first one's project name.  The reference is the same second load with a private copy of the original environment.
+type c02SharedEnvArgs struct {
+	First  string            `json:"first"`  // compose file loaded first (has its own name)
+	Second string            `json:"second"` // compose file loaded second
+	Env    map[string]string `json:"env"`
+}
+
+func init() {
+	core.Register("c02.sharedEnv", &core.CheckDef{
+		Timeout: 30 * time.Second,
+		Real: func(raw json.RawMessage) any {
+			var a c02SharedEnvArgs
+			json.Unmarshal(raw, &a)
+			root, err := core.Materialize(map[string]string{"a/compose.yaml": a.First, "b/compose.yaml": a.Second})
+			defer os.RemoveAll(root)
+			if err != nil {
+				return map[string]any{"bad": err.Error()}
+			}
+			load := func(dir string, env map[string]string) string {
+				d := types.ConfigDetails{WorkingDir: filepath.Join(root, dir), Environment: env,
+					ConfigFiles: []types.ConfigFile{{Filename: filepath.Join(root, dir, "compose.yaml")}}}
+				p, err := loader.LoadWithContext(context.Background(), d)
+				if err != nil {
+					return "err"
+				}
+				y, _ := p.MarshalYAML()
+				return p.Name + "|" + sha(string(y))
+			}
+			cp := func() map[string]string {
+				m := map[string]string{}
+				for k, v := range a.Env {
+					m[k] = v
+				}
+				return m
+			}
+			alone := load("b", cp())
+			shared := cp()
+			load("a", shared)
+			after := load("b", shared)
+			return map[string]any{"alone": alone, "after": after}
+		},
+		Judge: func(args, real, _ json.RawMessage) *core.Verdict {
+			if v := core.CrashVerdict(real); v != nil {
+				return v
+			}
+			var r struct{ Alone, After, Bad string }
+			json.Unmarshal(real, &r)
+			if r.Bad != "" {
+				return core.Disagree("harness error: " + r.Bad)
+			}
+			if r.Alone != r.After {
+				return core.Fail("nondeterministic:history:loader.projectName-writes-caller-environment",
+					fmt.Sprintf("loading the same file with the same environment map gives %q alone and %q after another load that was handed the same map", r.Alone, r.After))
+			}
+			return nil
+		},
+	})
+}
+
 func (in *c02Input) req(files map[string]string) core.LoadReq {
 	return core.LoadReq{Files: files, ConfigFiles: in.ConfigFiles, Env: in.Env, Profiles: in.Profiles, ProjectName: "c02"}
 }
 
 func runC02Oracle(ctx *core.Ctx) {
+	// loads that share one environment map (the second file may or may not look at COMPOSE_PROJECT_NAME)
+	for _, second := range []string{
+		`{"name": "${COMPOSE_PROJECT_NAME:-bbb}", "services": {"s": {"image": "alpine"}}}`,
+		`{"name": "bbb", "services": {"s": {"image": "alpine", "labels": {"p": "${COMPOSE_PROJECT_NAME}"}}}}`,
+		`{"name": "bbb", "services": {"s": {"image": "alpine"}}}`,
+	} {
+		for _, env := range []map[string]string{{}, {"X": "1"}, {"COMPOSE_PROJECT_NAME": "fromenv"}} {
+			ctx.Count("shared-env")
+			ctx.Add("c02.sharedEnv", c02SharedEnvArgs{First: `{"name": "aaa", "services": {"s": {"image": "alpine"}}}`, Second: second + "\n", Env: env})
+		}
+	}
 	n := ctx.Pick(24, 400)
 	inputs := ctx.Pick(80, 500)
 	for i := 0; i < inputs; i++ {
